@@ -18,6 +18,8 @@ def maskLast (w len : Nat) (toks : List (String × String)) : List String :=
 def sliceTok (l : List Nat) : String := if l.isEmpty then "e" else String.intercalate "." (l.map toString)
 
 def c02 (fn : String) (r : Req) : Option (String × String) :=
+  if !(["rolling_apply", "rolling_apply_idx", "rolling2_apply", "rolling2_apply_idx", "rolling_custom",
+        "rolling2_custom"].contains fn) || (r.get "n").isNone then none else
   let n := r.nat "n"
   let w := r.nat "w" 1
   let sh := r.shape
